@@ -84,6 +84,8 @@ impl Stats {
     }
     pub fn violation(&mut self, v: Violation) {
         self.violations_total += 1;
+        // a case the oracle judged (here: as violating) is a non-trivial evaluation too
+        self.hashes.push(crate::rng::hash64(format!("violating-case:{}:{}", v.case, v.signature).as_bytes()));
         // keep at most 3 per (signature, hazard) so that frequent known findings cannot crowd out new ones
         let key = format!("{}|{:?}", v.signature, v.hazard);
         let c = self.viol_keys.entry(key).or_insert(0);
